@@ -16,6 +16,7 @@ two different splits of one string must give different results.
 import itertools
 import zlib
 
+from .. import common
 from ..common import Acc, exc_site, short, seeded, asc
 from . import _c09_targets as TG
 from ._c09_targets import KINDS, WRITABLE, OUTS, KIND_SIG, OUT_SIG, mkin, mkout, sig, GL, GR, PADL, PADR
@@ -28,7 +29,7 @@ RULE = ("a case is one complete call history on a fresh object: (class configura
         "checks this on every case from the objects really passed; distinct_nontrivial counts distinct "
         "(class, direction, lengths, cut points) segmentation shapes, each of which was run under several "
         "buffer-type/output assignments (evaluations)")
-BUDGET = {"quick": 240, "thorough": 2400}
+BUDGET = {"quick": 120, "thorough": 1200}
 
 # a read-only memoryview over storage the caller later overwrites: the property text does not speak
 # about mutation after the call returned, so a dependence on it is logged, not reported
@@ -97,6 +98,11 @@ def execute(T, dirn, inputs, aux, plan, scribble=True):
                 ret = sess.combo(obj, out)
             else:
                 ret = sess.call(s, obj, out)
+            if s == last and produces:
+                if out is not None and ret is not None:
+                    problems.append(("obs", "%s(..., output=buf) returned %s instead of None" % (st.op, type(ret).__name__)))
+                elif out is None and type(ret) is not bytes:
+                    problems.append(("obs", "%s() returned %s instead of bytes" % (st.op, type(ret).__name__)))
         ksig = sig(obj)
         if ksig != KIND_SIG[kind]:
             raise HarnessError("input buffer shape %s, planned %s" % (ksig, kind))
@@ -152,21 +158,36 @@ def _lengths(T, inputs):
 
 
 def base_from_inputs(T, dirn, enc_inputs, acc):
+    """-> Base, or None when the one-shot oracle call itself raises (reported as a violation)"""
     lengths = _lengths(T, enc_inputs)
     one = oneshot_plan(T, lengths)
     b = Base()
     b.T, b.dirn, b.enc_inputs, b.lengths = T, dirn, enc_inputs, lengths
     first = "h" if T.dirs == ("h",) else "e"
-    res, trace, _ = execute(T, first, enc_inputs, {}, one, scribble=False)
-    if dirn in ("e", "h"):
-        b.inputs, b.aux, b.expected, b.otrace = enc_inputs, {}, res, trace
-        return b
-    dins, aux, inverse = T.dec_setup(enc_inputs, res[0], res[1])
-    dres, dtrace, _ = execute(T, "d", dins, aux, one, scribble=False)
+    cur = first
+    try:
+        res, trace, _ = execute(T, first, enc_inputs, {}, one, scribble=False)
+        if dirn in ("e", "h"):
+            b.inputs, b.aux, b.expected, b.otrace = enc_inputs, {}, res, trace
+            acc.count("oracle_bases")
+            return b
+        cur = "d"
+        dins, aux, inverse = T.dec_setup(enc_inputs, res[0], res[1])
+        dres, dtrace, _ = execute(T, "d", dins, aux, one, scribble=False)
+    except HarnessError:
+        raise
+    except Exception as e:  # noqa
+        acc.violation("C09/%s/%s/oneshot-call-raises/%s@%s" % (T.keyname, T.opname(cur), type(e).__name__, exc_site(e)),
+                      "%s: the one-shot %s call on valid input raised %s: %s (no oracle for the segmentations of this input)"
+                      % (describe(T, cur, lengths, one), T.opname(cur), type(e).__name__, e),
+                      {"part": "base", "spec": T.spec, "thorough": T.thorough, "dirn": dirn, "seed": common.SEED,
+                       "inputs": enc_inputs})
+        return None
     if dres != inverse:
         acc.observe("%s: one-shot decrypt of the one-shot ciphertext does not return the plaintext "
                     "(C02's subject; C09 compares against the one-shot result)" % T.name)
     b.inputs, b.aux, b.expected, b.otrace = dins, aux, dres, dtrace
+    acc.count("oracle_bases")
     return b
 
 
@@ -199,21 +220,22 @@ def _passes(b, plan, scribble=True):
         raise
     except Exception:   # noqa
         return False
-    return res == b.expected and not problems
+    return res == b.expected and not [p for p in problems if p[0] != "obs"]
 
 
 def classify(b, plan):
-    """Which single dimension of the case makes it fail (deterministic; gives the violation key)."""
+    """Which single dimension of the case makes it fail (deterministic; gives the violation key).
+    -> (label, simpler plan that isolates that dimension or None)"""
     T = b.T
     steps, ctor, combo = plan
     if _passes(b, plan, scribble=False):
         if any(k == "romv_mut" for _, _, _, k, _ in steps):
-            return "readonly-view-read-after-call"
-        return "buffer-read-after-call"
+            return "readonly-view-read-after-call", None
+        return "buffer-read-after-call", None
     seg_only = (tuple((s, a, e, "len" if T.streams[s].is_len else "bytes", "ret") for s, a, e, _, _ in steps),
                 False, False)
     if not _passes(b, seg_only):
-        return "segmentation"
+        return "segmentation", seg_only
     kinds = []
     outs = []
     for s, a, e, k, o in steps:
@@ -222,15 +244,21 @@ def classify(b, plan):
         if o != "ret" and o not in outs:
             outs.append(o)
     for k in kinds:
-        if not _passes(b, oneshot_plan(T, b.lengths, kind=k)):
-            return "buffer-type"
+        p = oneshot_plan(T, b.lengths, kind=k)
+        if not _passes(b, p):
+            return "buffer-type", p
     for o in outs:
-        if not _passes(b, oneshot_plan(T, b.lengths, kind="bytearray", ostyle=o)):
-            return "output-alias" if o == "alias" else "output-buffer"
-    if ctor and not _passes(b, oneshot_plan(T, b.lengths, ctor=True)):
-        return "constructor-data"
-    if combo and not _passes(b, oneshot_plan(T, b.lengths, combo=True)):
-        return "combined-call"
+        p = oneshot_plan(T, b.lengths, kind="bytearray", ostyle=o)
+        if not _passes(b, p):
+            return ("output-alias" if o == "alias" else "output-buffer"), p
+    if ctor:
+        p = oneshot_plan(T, b.lengths, ctor=True)
+        if not _passes(b, p):
+            return "constructor-data", p
+    if combo:
+        p = oneshot_plan(T, b.lengths, combo=True)
+        if not _passes(b, p):
+            return "combined-call", p
     dims = []
     per_stream = {}
     for s, a, e, k, o in steps:
@@ -245,7 +273,7 @@ def classify(b, plan):
         dims.append("ctor")
     if combo:
         dims.append("combo")
-    return "combination(" + "+".join(dims) + ")"
+    return "combination(" + "+".join(dims) + ")", None
 
 
 def describe(T, dirn, lengths, plan):
@@ -264,22 +292,143 @@ def describe(T, dirn, lengths, plan):
 
 def case_of(b, plan):
     steps, ctor, combo = plan
-    return {"part": "plan", "spec": b.T.spec, "thorough": b.T.thorough, "dirn": b.dirn,
+    return {"part": "plan", "spec": b.T.spec, "thorough": b.T.thorough, "dirn": b.dirn, "seed": common.SEED,
             "inputs": b.enc_inputs, "steps": [list(x) for x in steps], "ctor": ctor, "combo": combo}
+
+
+_KIND_SRC = {
+    "bytes": "x = D[%d][%d:%d]",
+    "bytearray": "x = bytearray(D[%d][%d:%d])",
+    "romv": "x = memoryview(D[%d][%d:%d])",
+    "rwmv": "x = memoryview(bytearray(D[%d][%d:%d]))",
+    "slice": "x = memoryview(bytearray(b'...' + D[%d][%d:%d] + b'.....'))[3:-5]",
+    "romv_mut": "x = memoryview(bytearray(D[%d][%d:%d])).toreadonly()",
+}
+_OUT_SRC = {"ba": "o = bytearray(len(x))", "mv": "o = memoryview(bytearray(len(x)))",
+            "mvs": "o = memoryview(bytearray(len(x) + 8))[3:3 + len(x)]", "alias": "o = x"}
+
+
+def script_for(b, plan):
+    """stand-alone reproduction of one case with nothing but Crypto (best effort; the JSON case is authoritative)"""
+    T, dirn = b.T, b.dirn
+    steps, ctor, combo = plan
+    try:
+        imp, new0 = T.src_new(dirn, b.inputs, b.aux)
+    except Exception:  # noqa
+        return None
+    L = ["# stand-alone reproduction (needs only pycryptodome): %s" % describe(T, dirn, b.lengths, plan), imp]
+    L.append("D = [%s]" % ", ".join(repr(v) if isinstance(v, int) else 'bytes.fromhex("%s")' % v.hex() for v in b.inputs))
+    if "tag" in b.aux:
+        L.append('TAG = bytes.fromhex("%s")' % b.aux["tag"].hex())
+    kind = T.kind
+    fn = {"e": "encrypt", "d": "decrypt"}.get(dirn)
+    last = len(T.streams) - 1
+
+    def fin(var):
+        if kind == "cipher":
+            return []
+        if kind == "aead":
+            pre = ["out += %s.%s()" % (var, fn)] if getattr(T, "mode", "") == "OCB" else []
+            if dirn == "e":
+                return pre + ["final = %s.digest()" % var]
+            return pre + ["try:", "    %s.verify(TAG); final = b'ok'" % var, "except ValueError:", "    final = b'MAC-CHECK-FAILED'"]
+        if kind == "hash":
+            return ["final = %s.digest()" % var]
+        return []
+
+    # one-shot
+    L += ["", "# one-shot", "c = %s" % new0, "out = b''; final = b''"]
+    for s, st in enumerate(T.streams):
+        if st.is_len:
+            L.append("out += c.read(D[%d])" % s)
+        elif kind in ("hash", "xof") or (kind == "aead" and s == 0):
+            L.append("c.update(D[%d])" % s)
+        else:
+            L.append("out += c.%s(D[%d])" % (fn, s))
+    L += fin("c") + ["expected = (out, final)"]
+    # the case
+    L += ["", "# the case", "out = b''; final = b''"]
+    started = False
+    for i, (s, a, e, k, o) in enumerate(steps):
+        st = T.streams[s]
+        if st.is_len:
+            if not started:
+                L.append("c = %s" % new0)
+                started = True
+            L.append("out += c.read(%d)" % (e - a))
+            continue
+        L.append(_KIND_SRC[k] % (s, a, e))
+        if not started:
+            started = True
+            if ctor and s == T.ctor_stream:
+                L.append("c = %s" % T.src_new(dirn, b.inputs, b.aux, "x")[1])
+                L.append("x[:] = b'\\xa5' * len(x)" if k in WRITABLE else "pass")
+                continue
+            L.append("c = %s" % new0)
+        if o != "ret":
+            L.append(_OUT_SRC[o])
+        oarg = "" if o == "ret" else ", output=o"
+        if kind in ("hash", "xof") or (kind == "aead" and s == 0):
+            L.append("c.update(x)")
+        elif combo and i == len(steps) - 1:
+            if dirn == "e":
+                L.append("r, final = c.encrypt_and_digest(x%s)" % oarg)
+            else:
+                L += ["try:", "    r = c.decrypt_and_verify(x, TAG%s); final = b'ok'" % oarg,
+                      "except ValueError:", "    r = b''; final = b'MAC-CHECK-FAILED'"]
+            L.append("out += bytes(r) if %s else bytes(o)" % ("True" if o == "ret" else "False"))
+        else:
+            L.append("r = c.%s(x%s)" % (fn, oarg))
+            L.append("out += r" if o == "ret" else "out += bytes(o)")
+        if k in WRITABLE or k == "romv_mut":
+            L.append("x.obj[:] = b'\\xa5' * len(x.obj)" if k != "bytearray" else "x[:] = b'\\xa5' * len(x)")
+    if not started:
+        L.append("c = %s" % new0)
+    if not (combo and steps):
+        L += fin("c")
+    L += ["got = (out, final)", "print('one-shot:', expected[0].hex(), expected[1].hex())",
+          "print('case    :', got[0].hex(), got[1].hex())", "print('EQUAL' if got == expected else 'DIFFERENT')"]
+    return "\n".join(L) + "\n"
+
+
+def _verdict(b, plan, exc, res, label):
+    T = b.T
+    key = "C09/%s/%s/%s" % (T.keyname, T.opname(b.dirn), label)
+    if exc is not None:
+        key += "/%s@%s" % (type(exc).__name__, exc_site(exc))
+        what = "%s: raised %s: %s (the one-shot call returns %s)" % (
+            describe(T, b.dirn, b.lengths, plan), type(exc).__name__, exc, short(b.expected[0] + b.expected[1]))
+    else:
+        where = []
+        for name, got, want in (("output", res[0], b.expected[0]), ("tag/digest", res[1], b.expected[1])):
+            if got != want:
+                i = next((j for j in range(min(len(got), len(want))) if got[j] != want[j]), min(len(got), len(want)))
+                where.append("%s: lengths %d/%d, first difference at byte %d (%s vs %s)"
+                             % (name, len(got), len(want), i, got[i:i + 8].hex() or "-", want[i:i + 8].hex() or "-"))
+        what = "%s: result %s / %s differs from the one-shot result %s / %s [%s]" % (
+            describe(T, b.dirn, b.lengths, plan), short(res[0]), short(res[1]),
+            short(b.expected[0]), short(b.expected[1]), "; ".join(where))
+    return key, what
+
+
+def _run(b, plan):
+    try:
+        res, trace, problems = execute(b.T, b.dirn, b.inputs, b.aux, plan)
+        return None, res, trace, problems
+    except HarnessError:
+        raise
+    except Exception as e:  # noqa
+        return e, None, None, []
 
 
 def check_plan(b, plan, acc, stats=None):
     T = b.T
     acc.count("evaluations")
-    exc = None
     try:
-        res, trace, problems = execute(T, b.dirn, b.inputs, b.aux, plan)
+        exc, res, trace, problems = _run(b, plan)
     except HarnessError as e:
         acc.error("harness: %s in %s" % (e, describe(T, b.dirn, b.lengths, plan)))
         return
-    except Exception as e:  # noqa
-        exc = e
-        res, trace, problems = None, None, []
     romut = any(k == "romv_mut" for _, _, _, k, _ in plan[0])
     if exc is None:
         # vacuity: the case must really differ from the oracle call history
@@ -289,31 +438,39 @@ def check_plan(b, plan, acc, stats=None):
         if stats is not None:
             stats.note(trace)
     if exc is not None or res != b.expected:
-        label = classify(b, plan)
+        label, reduced = classify(b, plan)
         if label == "readonly-view-read-after-call" and not RO_VIEW_REUSE_IS_VIOLATION:
             acc.observe("%s.%s(): a read-only memoryview over caller storage is read after the call returned "
                         "(result changes when the caller then overwrites its buffer)" % (T.keyname, T.streams[plan[0][0][0]].op))
             return
-        key = "C09/%s/%s/%s" % (T.keyname, T.opname(b.dirn), label)
-        if exc is not None:
-            key += "/%s@%s" % (type(exc).__name__, exc_site(exc))
-            what = "%s: raised %s: %s (the one-shot call returns %s)" % (
-                describe(T, b.dirn, b.lengths, plan), type(exc).__name__, exc, short(b.expected[0] + b.expected[1]))
-        else:
-            what = "%s: result %s / %s differs from the one-shot result %s / %s" % (
-                describe(T, b.dirn, b.lengths, plan), short(res[0]), short(res[1]),
-                short(b.expected[0]), short(b.expected[1]))
-        acc.violation(key, what, case_of(b, plan))
+        key, what = _verdict(b, plan, exc, res, label)
+        rep = plan
+        if reduced is not None and reduced != plan:
+            # report the simplest case that isolates the failing dimension, if it yields the same key
+            e2, r2, _, _ = _run(b, reduced)
+            if e2 is not None or r2 != b.expected:
+                k2, w2 = _verdict(b, reduced, e2, r2, label)
+                if k2 == key and classify(b, reduced)[0] == label:
+                    rep, what = reduced, w2
+        acc.violation(key, what, case_of(b, rep), script=script_for(b, rep))
     for code, text in problems:
         if romut:
+            continue
+        if code == "obs":
+            acc.observe("%s: %s (documented return value; not part of the property text)" % (T.keyname, text))
             continue
         acc.violation("C09/%s/%s/%s" % (T.keyname, T.opname(b.dirn), code),
                       "%s: %s" % (describe(T, b.dirn, b.lengths, plan), text), case_of(b, plan))
 
 
-def check_reference(T, lengths, acc):
+def check_reference(T, lengths, acc, inputs=None):
     """one-shot result of the library against the independent reference"""
-    b = make_base(T, T.dirs[0], lengths, acc)
+    if inputs is None:
+        b = make_base(T, T.dirs[0], lengths, acc)
+    else:
+        b = base_from_inputs(T, T.dirs[0], inputs, acc)
+    if b is None:
+        return True                 # already reported; the class does have a reference
     ref = T.ref(b.enc_inputs)
     if ref is None:
         return False
@@ -321,8 +478,9 @@ def check_reference(T, lengths, acc):
     if tuple(ref) != tuple(b.expected):
         acc.violation("C09/%s/oneshot-vs-reference" % T.keyname,
                       "%s lengths=%s: one-shot result %s / %s differs from the independent reference %s / %s"
-                      % (T.name, list(lengths), short(b.expected[0]), short(b.expected[1]), short(ref[0]), short(ref[1])),
-                      {"part": "ref", "spec": T.spec, "thorough": T.thorough, "lengths": list(lengths)})
+                      % (T.name, list(b.lengths), short(b.expected[0]), short(b.expected[1]), short(ref[0]), short(ref[1])),
+                      {"part": "ref", "spec": T.spec, "thorough": T.thorough, "seed": common.SEED,
+                       "inputs": b.enc_inputs})
     return True
 
 
@@ -517,6 +675,7 @@ class Stats(object):
         self.maxcalls = 0
         self.shapes = set()
         self.nontrivial = 0
+        self.sampled = False
 
     def note(self, trace):
         self.nontrivial += 1
@@ -533,9 +692,13 @@ class Stats(object):
             acc.seen("output_shapes", o)
         for h in self.shapes:
             acc.seen("shapes", h)
+        for k in self.kinds:
+            acc.seen("class_in", (tname, k))
+        for o in self.outs:
+            acc.seen("class_out", (tname, o))
         acc.seen("maxcalls", min(self.maxcalls, 8))
         acc.count("nontrivial_cases", self.nontrivial)
-        acc.count("cases/" + tname, self.nontrivial)
+        acc.count("_cases/" + tname, self.nontrivial)
 
 
 _TCACHE = {}
@@ -565,9 +728,16 @@ def run_part(T, dirn, part, full, thorough, acc):
     ns = len(T.streams)
 
     def go(b, gen):
+        if b is None:
+            return
         for comp, plan in gen:
             stats.shapes.add(hash((tid, dnum, b.lengths, comp)))
             check_plan(b, plan, acc, stats)
+            if not stats.sampled and len(plan[0]) >= 4 and b.lengths[-1]:
+                stats.sampled = True
+                acc.sample({"case": describe(T, dirn, b.lengths, plan), "part": part,
+                            "one_shot_oracle": short(b.expected[0], 24) + " / " + short(b.expected[1], 24),
+                            "verdict": "equal" if not acc.viol else "see violations"})
 
     if part == "ref":
         done = 0
@@ -589,8 +759,6 @@ def run_part(T, dirn, part, full, thorough, acc):
             lengths[s] = L
             b = make_base(T, dirn, lengths, acc)
             go(b, gen_sweep(T, s, lengths, full, ctr0=L))
-        acc.sample({"class": T.name, "direction": T.opname(dirn), "stream": st.name, "lengths": st.lens,
-                    "cut_points": st.cuts, "grid": "full" if full else "rotating buffer types"})
     elif part == "joint":
         for L0 in T.streams[0].joint:
             for L1 in T.streams[1].joint:
@@ -603,14 +771,14 @@ def run_part(T, dirn, part, full, thorough, acc):
         if s == ns - 1 and not getattr(T, "multi_m", True):
             return
         g = st.gran
-        lmax = (12 if thorough else 8) if full else 6
+        lmax = (12 if thorough else 10) if full else 6
         for n in range(1, lmax + 1):
             lengths = _defaults(T)
             lengths[s] = n * g
             b = make_base(T, dirn, lengths, acc)
             go(b, gen_allcomps(T, s, lengths, 0, n * g, ctr0=n))
         if full:
-            w = 12 if thorough else 8
+            w = 12 if thorough else 10
             for center in st.win:
                 prefix = max(0, center - (w // 2) * g)
                 lengths = _defaults(T)
@@ -635,6 +803,8 @@ def run_part(T, dirn, part, full, thorough, acc):
             lengths = _defaults(T)
             lengths[s] = 2 * st.c + st.gran if st.gran == 1 else 2 * st.gran
             b = make_base(T, dirn, lengths, acc)
+            if b is None:
+                continue
             before, after = other_steps(T, s, lengths)
             before = [(i, x, y, k if k == "len" else "romv_mut", o) for i, x, y, k, o in before]
             after = [(i, x, y, k if k == "len" else "romv_mut", o) for i, x, y, k, o in after]
@@ -647,6 +817,15 @@ def run_part(T, dirn, part, full, thorough, acc):
     else:
         raise HarnessError("unknown part %r" % part)
     stats.flush(acc, T.name)
+
+
+def worker(shard):
+    """one pool for everything: shard[0] names the explorer"""
+    if shard[0] == "siv":
+        return siv_worker(shard[1:])
+    if shard[0] == "th":
+        return tuplehash_worker(shard[1:])
+    return plan_worker(shard[1:])
 
 
 def plan_worker(shard):
@@ -690,7 +869,7 @@ def check_siv(klen, with_nonce, comps, pt, kinds, ptkind, ostyle, dirn, acc, scr
     acc.count("evaluations")
     key, nonce = siv_params(klen, with_nonce)
     ct_ref, tag_ref = siv_reference(klen, with_nonce, comps, pt)
-    case = {"part": "siv", "klen": klen, "nonce": with_nonce, "comps": list(comps), "pt": pt,
+    case = {"part": "siv", "seed": common.SEED, "klen": klen, "nonce": with_nonce, "comps": list(comps), "pt": pt,
             "kinds": list(kinds), "ptkind": ptkind, "ostyle": ostyle, "dirn": dirn}
     what = "AES-%d/SIV%s %s components=%s(%s) message %d bytes as %s->%s" % (
         klen * 4, "+nonce" if with_nonce else "", "encrypt_and_digest" if dirn == "e" else "decrypt_and_verify",
@@ -767,7 +946,7 @@ def siv_distinct(klen, with_nonce, vectors, pt, acc):
             acc.violation("C09/SIV/split-not-distinguished",
                           "AES-%d/SIV: component vectors %s and %s (same concatenation) give the same tag %s"
                           % (klen * 4, short(list(seen[tag])), short(list(comps)), tag.hex()),
-                          {"part": "siv-distinct", "klen": klen, "nonce": with_nonce,
+                          {"part": "siv-distinct", "seed": common.SEED, "klen": klen, "nonce": with_nonce,
                            "vectors": [list(seen[tag]), list(comps)], "pt": pt})
         seen[tag] = tuple(comps)
     acc.seen("siv_distinct_tags", (klen, with_nonce, len(seen)))
@@ -807,7 +986,7 @@ def siv_worker(shard):
                     % (7 if thorough else 5)})
     elif kind == "boundary":
         lens = (1, 15, 16, 17, 32, 33)
-        ncomp = arg
+        ncomp, first = arg if isinstance(arg, tuple) else (arg, None)
         ptlens = (0, 1, 15, 16, 17, 33) + ((127, 128, 129) if thorough else ())
         groups = {}
         for v in itertools.product(lens, repeat=ncomp):
@@ -815,8 +994,11 @@ def siv_worker(shard):
         for total, vs in sorted(groups.items()):
             S = master[:total]
             vectors = [split_by(S, v) for v in vs]
-            siv_distinct(klen, with_nonce, vectors, seeded("c09/siv/pt", 17), acc)
+            if first is None or first == lens[0]:
+                siv_distinct(klen, with_nonce, vectors, seeded("c09/siv/pt", 17), acc)
             for comps in vectors:
+                if first is not None and len(comps[0]) != first:
+                    continue
                 for ptlen in ptlens:
                     pt = seeded("c09/siv/pt", ptlen)
                     acc.seen("shapes", hash(("siv", klen, with_nonce, tuple(len(c) for c in comps), ptlen)))
@@ -993,26 +1175,41 @@ def run(ctx):
     # heavy shards first so that the pool drains evenly
     order = {"joint": 0, "sweep": 1, "all": 2, "values": 3, "ref": 4, "romut": 5}
     shards.sort(key=lambda sh: (order[sh[4].rstrip("0123456789")], 0 if sh[0][0] in ("aead", "xof") else 1))
-    ctx.pmap(plan_worker, shards)
-    siv = []
+    shards = [("plan",) + sh for sh in shards]
+    vec = []
     for klen, wn in ((32, False), (32, True)) + (((48, True), (64, False)) if thorough else ()):
-        siv.append(("small", klen, wn, thorough, 0))
-        for ncomp in (0, 1, 2) + ((3,) if thorough else ()):
-            siv.append(("boundary", klen, wn, thorough, ncomp))
-    ctx.pmap(siv_worker, siv)
-    ctx.pmap(tuplehash_worker, [(k, bits, thorough) for k in ("small", "boundary") for bits in (128, 256)])
+        vec.append(("siv", "small", klen, wn, thorough, 0))
+        for ncomp in (0, 1):
+            vec.append(("siv", "boundary", klen, wn, thorough, ncomp))
+        for ncomp in (2,) + ((3,) if thorough else ()):
+            for first in (1, 15, 16, 17, 32, 33):
+                vec.append(("siv", "boundary", klen, wn, thorough, (ncomp, first)))
+    vec += [("th", k, bits, thorough) for k in ("small", "boundary") for bits in (128, 256)]
+    nshards = len(shards) + len(vec)
+    ctx.pmap(worker, vec[::-1] + shards if thorough else shards[:64] + vec + shards[64:])
 
     a = ctx.acc
     d = a.distinct
     names = [target(spec, thorough).name for spec, _ in specs]
     ctx.require(len(set(names)) == len(names), "target names are not unique")
-    missing = [n for n in names if a.n.get("cases/" + n, 0) < 200]
+    missing = [n for n in names if a.n.get("_cases/" + n, 0) < 200]
     ctx.require(not missing, "classes with fewer than 200 non-trivial cases: %s" % missing[:5])
     ctx.require(set(d.get("input_shapes", ())) >= {"bytes", "bytearray", "romv", "rwmv", "rwmv+off", "len"},
                 "not every input buffer shape was exercised: %s" % sorted(d.get("input_shapes", ())))
     ctx.require(set(d.get("output_shapes", ())) >= {"ret", "bytearray", "rwmv", "rwmv+off", "alias", "ctor"},
                 "not every output style was exercised: %s" % sorted(d.get("output_shapes", ())))
     ctx.require(max(d.get("maxcalls", {0})) >= 6, "no call history with >= 6 calls")
+    need_in = {"bytes", "bytearray", "romv", "rwmv", "rwmv+off"}
+    need_out = {"ret", "bytearray", "rwmv", "rwmv+off", "alias"}
+    for spec, _ in specs:
+        T = target(spec, thorough)
+        got_in = {k for n, k in d.get("class_in", ()) if n == T.name}
+        got_out = {k for n, k in d.get("class_out", ()) if n == T.name}
+        ctx.require(got_in >= need_in, "%s: input buffer shapes exercised %s" % (T.name, sorted(got_in)))
+        if any(st.has_out for st in T.streams):
+            ctx.require(got_out >= need_out, "%s: output styles exercised %s" % (T.name, sorted(got_out)))
+        if T.ctor_stream is not None:
+            ctx.require("ctor" in got_out, "%s: constructor data= never exercised" % T.name)
     noref = [n for n in names if n not in d.get("referenced", ())]
     noref = [n for n in noref if not (n.endswith("/ECB") and n.split("-")[0] in ("CAST", "ARC2"))]
     ctx.require(not noref, "classes never compared with an independent reference: %s" % noref[:6])
@@ -1025,9 +1222,12 @@ def run(ctx):
         "distinct_nontrivial": len(d.get("shapes", ())),
         "exhaustive": not a.caps,
         "classes": len(names) + 2,
+        "shards": nshards,
+        "nontrivial_cases_per_class": {n: a.n.get("_cases/" + n, 0) for n in names},
         "class_list": names + ["AES/SIV (vector AAD)", "TupleHash128/256 (vector input)"],
         "nontrivial_cases_checked_against_oracle_trace": a.n.get("nontrivial_cases", 0),
         "reference_comparisons": a.n.get("reference_comparisons", 0),
+        "distinct_outcomes_per_base": "1 (every case equals its one-shot oracle, or is reported)",
         "input_buffer_shapes": sorted(d.get("input_shapes", ())),
         "output_styles": sorted(d.get("output_shapes", ())),
         "grid": {
@@ -1037,7 +1237,7 @@ def run(ctx):
             "segmentations": "all compositions into <=3 parts with cuts in the boundary set (empty parts and 'no call' "
                              "included); all 2^(L-1) compositions for L<=%d units and of a %d-unit window straddling each "
                              "boundary; two streams jointly with <=2 parts each"
-                             % ((12, 12) if thorough else (8, 8)),
+                             % ((12, 12) if thorough else (10, 10)),
             "buffer_types": "bytes, bytearray, read-only memoryview, writable memoryview, writable memoryview slice at "
                             "offset 3 of a larger bytearray: all assignments for <=2 segments, 5 rotations for 3 "
                             "(1 rotation on the reduced grid)",
@@ -1067,15 +1267,25 @@ def _tuplify(x):
 
 def replay(case, acc):
     part = case["part"]
-    if part == "plan":
+    if "seed" in case:
+        common.SEED = int(case["seed"])      # keys/nonces of the classes are seeded constants
+        _TCACHE.clear()
+    if part == "base":
+        T = target(_tuplify(case["spec"]), bool(case["thorough"]))
+        ins = [v if isinstance(v, int) else bytes(v) for v in case["inputs"]]
+        base_from_inputs(T, case["dirn"], ins, acc)
+    elif part == "plan":
         T = target(_tuplify(case["spec"]), bool(case["thorough"]))
         ins = [v if isinstance(v, int) else bytes(v) for v in case["inputs"]]
         b = base_from_inputs(T, case["dirn"], ins, acc)
+        if b is None:
+            return
         steps = tuple(tuple(s) for s in case["steps"])
         check_plan(b, (steps, bool(case["ctor"]), bool(case["combo"])), acc)
     elif part == "ref":
         T = target(_tuplify(case["spec"]), bool(case["thorough"]))
-        check_reference(T, list(case["lengths"]), acc)
+        ins = [v if isinstance(v, int) else bytes(v) for v in case["inputs"]]
+        check_reference(T, None, acc, inputs=ins)
     elif part == "siv":
         check_siv(case["klen"], case["nonce"], [bytes(c) for c in case["comps"]], bytes(case["pt"]),
                   tuple(case["kinds"]), case["ptkind"], case["ostyle"], case["dirn"], acc)
